@@ -139,6 +139,17 @@ def run(ctx):
     reader_table = {}
     with ctx.obligation("C04.3", "reader: same table; writer = reader = spec", floor=3) as o:
         rf = r.fn
+        # every column (the joint degrees of the vertices included) is filled on EVERY path that returns the edge list: an
+        # early `return model` for, say, an edgeless network must not come before a column is assigned
+        rets_ = [n for n in astx.walk_fn(rf.node) if isinstance(n, ast.Return)]
+        for col_, sites_ in r.cols.items():
+            if col_ != "joint_degrees":
+                continue       # the edge columns of a fresh edge list are empty lists: leaving early is right exactly when there are no edges
+            first_ = min(sites_, key=lambda n: (n.lineno, n.col_offset))
+            early_ = [x for x in rets_ if (x.lineno, x.col_offset) < (first_.lineno, first_.col_offset) and x.value is not None and txt(x.value) == r.model]
+            if early_:
+                o.violated(rf, early_[0], f"`{txt(early_[0])}` at line {early_[0].lineno} leaves before `{r.model}.{col_}` is filled: on that path the column stays empty "
+                                           f"({'every vertex of an edgeless network is lost' if col_ == 'joint_degrees' else 'the columns are no longer parallel'})")
         for mem, col in SPEC.items():
             d = r.describe(col)
             if d is None:
@@ -146,8 +157,11 @@ def run(ctx):
                 continue
             kind, rmem, dom, elt_is_target, st, ktxt = d
             want_kind = "nodes" if col == "joint_degrees" else "edges"
-            if kind != want_kind:
+            if kind != want_kind and kind in ("nodes", "edges"):
                 o.violated(rf, st, f"{col} is read from G.{kind}, expected G.{want_kind}")
+                continue
+            if kind != want_kind:
+                o.undecided(f"where model.{col} is read from was not recognised ({kind})", rf, st)
                 continue
             if rmem is None:
                 o.violated(rf, st, f"{col} is read under key `{ktxt}`, not a NetworkNames member") if ktxt and ktxt.startswith(("'", '"')) else o.undecided(f"key `{ktxt}` not recognised", rf, st)
